@@ -60,8 +60,8 @@ func (u *vrtUp) ExchangeContext(ctx context.Context, m []byte) (*[]byte, error) 
 
 func vrtHarness_C14_exchange() {
 	n := 1 + vrtChoice(vrtParam("max_upstreams", 3))
-	concs := []int{0, 2, 7, 1, 3}
-	conc := concs[vrtChoice(vrtParam("conc_values", 5))]
+	concs := []int{0, 2, 7, -1, 1, 3}
+	conc := concs[vrtChoice(vrtParam("conc_values", 6))]
 	f := &Forward{args: &Args{Concurrent: conc}, logger: zap.NewNop()}
 	ups := make([]*vrtUp, n)
 	maxOutcome := 5
